@@ -174,6 +174,9 @@ type c14H struct {
 	ops       []string
 	raceHits  int
 	repoints  int
+	faultLive int
+	cfg       map[string]string
+	fault     func(h *c14H, mapName, key string) error // scripted lookup fault (scripted tests)
 	boundary  int
 	cleanerRm int
 }
@@ -313,6 +316,9 @@ func (m *c14Map) Iter(f maps.IterCallback) error {
 
 func (m *c14Map) Get(k []byte) ([]byte, error) {
 	m.h.hook("get:" + m.name)
+	if err := m.h.lookupFault(m.name, string(k)); err != nil {
+		return nil, err
+	}
 	v, ok := m.Contents[string(k)]
 	if !ok {
 		return nil, unix.ENOENT
@@ -388,6 +394,34 @@ func (h *c14H) hook(point string) {
 	case 10, 11:
 		h.packet("hook@" + point)
 	}
+}
+
+// lookupFault lets a map lookup made during a sweep fail transiently (the bpf() syscall can
+// return EAGAIN / EINTR / ENOMEM); the entry itself is untouched.  A failed lookup says
+// nothing about the connection, so nothing may be removed on the strength of it.
+func (h *c14H) lookupFault(mapName, k string) error {
+	if !h.hooksOn || h.pushing {
+		return nil
+	}
+	if h.t == nil {
+		if h.fault != nil {
+			return h.fault(h, mapName, k)
+		}
+		return nil
+	}
+	if rapid.IntRange(0, 5).Draw(h.t, "lookupFault:"+mapName) != 0 {
+		return nil
+	}
+	err := rapid.SampledFrom([]unix.Errno{unix.EAGAIN, unix.EINTR, unix.ENOMEM}).Draw(h.t, "lookupErrno")
+	h.class("lookup-fault-injected")
+	if c := h.byKey[k]; c != nil && mapName == "ct" && h.present(c.key) {
+		if time.Duration(h.now()-c.st.lastSeen) <= c14Threshold(h.to, c.st) {
+			h.faultLive++
+			h.class("lookup-fault-on-live-connection")
+		}
+	}
+	h.ops = append(h.ops, "getfault")
+	return err
 }
 
 // repoint models a client reusing its source port towards the same service after the forward
@@ -718,22 +752,76 @@ func (c *c14Cleaner) Run(opts ...conntrack.RunOpt) (*conntrack.CleanupContext, e
 
 // ---- generators ------------------------------------------------------------------------------
 
-func c14GenTimeouts(t *rapid.T) timeouts.Timeouts {
-	to := timeouts.DefaultTimeouts()
-	d := func(label string, def time.Duration) time.Duration {
-		if rapid.Bool().Draw(t, label+"Default") {
-			return def
+// c14TimeoutKeys are the protocol/state timeouts of timeouts.Timeouts that judge entries.
+var c14TimeoutKeys = []string{"TCPSynSent", "TCPEstablished", "TCPFinsSeen", "TCPResetSeen", "UDPTimeout", "GenericTimeout", "ICMPTimeout"}
+
+// c14GenTimeoutConfig generates a BPFConntrackTimeouts key/value list as Felix receives it
+// (empty, naming every timeout, or - what an operator overriding one field produces - naming
+// only some; values that are durations, or not usable) and the timeouts that must then apply:
+// the configured duration where one is given, the documented default
+// (timeouts.DefaultTimeouts, "If nil, Calico uses its own default value") otherwise.
+func c14GenTimeoutConfig(t *rapid.T) (map[string]string, timeouts.Timeouts, []string) {
+	want := timeouts.DefaultTimeouts()
+	cfg := map[string]string{}
+	shape := rapid.SampledFrom([]string{"empty", "full", "partial", "partial"}).Draw(t, "timeoutsConfigShape")
+	classes := []string{"timeouts-config:" + shape}
+	set := func(name string, d time.Duration) {
+		switch name {
+		case "TCPSynSent":
+			want.TCPSynSent = d
+		case "TCPEstablished":
+			want.TCPEstablished = d
+		case "TCPFinsSeen":
+			want.TCPFinsSeen = d
+		case "TCPResetSeen":
+			want.TCPResetSeen = d
+		case "UDPTimeout":
+			want.UDPTimeout = d
+		case "GenericTimeout":
+			want.GenericTimeout = d
+		case "ICMPTimeout":
+			want.ICMPTimeout = d
 		}
-		return time.Duration(rapid.IntRange(1, 7200).Draw(t, label+"Secs")) * time.Second
 	}
-	to.TCPSynSent = d("TCPSynSent", to.TCPSynSent)
-	to.TCPEstablished = d("TCPEstablished", to.TCPEstablished)
-	to.TCPFinsSeen = d("TCPFinsSeen", to.TCPFinsSeen)
-	to.TCPResetSeen = d("TCPResetSeen", to.TCPResetSeen)
-	to.UDPTimeout = d("UDPTimeout", to.UDPTimeout)
-	to.GenericTimeout = d("GenericTimeout", to.GenericTimeout)
-	to.ICMPTimeout = d("ICMPTimeout", to.ICMPTimeout)
-	return to
+	invalid := false
+	for _, k := range c14TimeoutKeys {
+		if shape == "empty" || (shape == "partial" && !rapid.Bool().Draw(t, "configNames"+k)) {
+			continue
+		}
+		switch rapid.IntRange(0, 9).Draw(t, "configValueKind"+k) {
+		case 0:
+			// not a duration ("Auto" is only resolvable for the keys backed by a sysctl; for
+			// the others it is just another unusable value): the default applies
+			bad := []string{"bogus", "", "30", "-"}
+			if k == "UDPTimeout" || k == "TCPResetSeen" {
+				bad = append(bad, "Auto")
+			}
+			cfg[k] = rapid.SampledFrom(bad).Draw(t, "configBadValue"+k)
+			invalid = true
+		case 1:
+			ms := rapid.IntRange(1000, 600000).Draw(t, "configMillis"+k)
+			cfg[k] = fmt.Sprintf("%dms", ms)
+			set(k, time.Duration(ms)*time.Millisecond)
+		default:
+			secs := rapid.IntRange(1, 7200).Draw(t, "configSecs"+k)
+			cfg[k] = fmt.Sprintf("%ds", secs)
+			set(k, time.Duration(secs)*time.Second)
+		}
+	}
+	if shape != "empty" && rapid.IntRange(0, 4).Draw(t, "configGracePeriod") == 0 {
+		cfg["CreationGracePeriod"] = "15s"
+	}
+	if rapid.IntRange(0, 9).Draw(t, "configUnknownKey") == 0 {
+		cfg["NoSuchTimeout"] = "1s"
+		invalid = true
+	}
+	if invalid {
+		classes = append(classes, "timeouts-config-has-unusable-value")
+	}
+	if shape == "partial" && len(cfg) == 0 {
+		classes[0] = "timeouts-config:empty"
+	}
+	return cfg, want, classes
 }
 
 func (h *c14H) create() {
@@ -825,7 +913,14 @@ func (h *c14H) scan() {
 
 func c14NewH(t *rapid.T, rec *ev.Recorder, ipver int, native *cnative.Proc) *c14H {
 	h := &c14H{t: t, tb: t, rec: rec, ipver: ipver, native: native, byKey: map[string]*c14Conn{}, dirty: map[string]bool{}, classes: map[string]bool{}}
-	h.to = c14GenTimeouts(t)
+	// the oracle judges with the timeouts the configuration asks for; the scanner under test
+	// gets whatever the real timeouts.GetTimeouts makes of the same configuration
+	cfg, want, cfgClasses := c14GenTimeoutConfig(t)
+	h.to = want
+	h.cfg = cfg
+	for _, c := range cfgClasses {
+		h.class(c)
+	}
 	h.clock = mocktime.New()
 	ctP, ccqP := conntrack.MapParams, conntrack.MapParamsCleanup
 	kfb, vfb := conntrack.KeyFromBytes, conntrack.ValueFromBytes
@@ -835,7 +930,7 @@ func c14NewH(t *rapid.T, rec *ev.Recorder, ipver int, native *cnative.Proc) *c14
 	}
 	h.ct = c14NewMap(h, "ct", ctP)
 	h.ccq = c14NewMap(h, "ccq", ccqP)
-	lc := conntrack.NewLivenessScanner(h.to, rapid.Bool().Draw(t, "dsrMode"), conntrack.WithTimeShim(h.clock))
+	lc := conntrack.NewLivenessScanner(timeouts.GetTimeouts(cfg), rapid.Bool().Draw(t, "dsrMode"), conntrack.WithTimeShim(h.clock))
 	h.sc = conntrack.NewScanner(h.ct, kfb, vfb, nil, "Disabled", h.ccq, ipver, &c14Cleaner{h}, lc)
 	if h.sc == nil {
 		t.Fatalf("HARNESS-GAP: NewScanner returned nil")
@@ -856,7 +951,8 @@ func TestVerifC14CleanupNeverRemovesLive(t *testing.T) {
 			"of the timeout; distinct = op sequence + classes",
 		"kernel side = the real C function compiled for the host and run against in-memory maps through stub helpers (no kernel, no verifier)",
 		"interleavings are explored between map operations / queue callbacks, not inside one process_ccq_entry call",
-		"expiry reference restates timeouts + entryDone (idle > timeout for protocol/TCP state)")
+		"expiry reference restates timeouts + entryDone (idle > timeout for protocol/TCP state)",
+		"a timeout the BPFConntrackTimeouts list does not name, or names with an unusable value, is the documented default (timeouts.DefaultTimeouts)")
 	defer rec.Write()
 	natives := map[int]*cnative.Proc{4: c14StartNative(t, 4), 6: c14StartNative(t, 6)}
 
@@ -943,10 +1039,11 @@ func TestVerifC14CleanupNeverRemovesLive(t *testing.T) {
 		}
 		sort.Strings(cls)
 		cls = append(cls, fmt.Sprintf("ipv%d", ipver))
-		nt := h.raceHits > 0 || h.boundary > 0 || h.repoints > 0
+		nt := h.raceHits > 0 || h.boundary > 0 || h.repoints > 0 || h.faultLive > 0
 		shape := strings.Join(h.ops, " ") + "|" + strings.Join(cls, ",")
 		rec.SizedCase(nt, shape, len(h.ops), func() any {
-			return map[string]any{"ipver": ipver, "ops": strings.Join(h.ops, " "), "classes": cls, "refresh_between_judgement_and_clean": h.raceHits, "fwd_repointed_between_judgement_and_clean": h.repoints,
+			return map[string]any{"ipver": ipver, "ops": strings.Join(h.ops, " "), "classes": cls, "refresh_between_judgement_and_clean": h.raceHits, "fwd_repointed_between_judgement_and_clean": h.repoints, "lookup_faults_on_live_connections": h.faultLive,
+				"timeouts_config":                  fmt.Sprint(h.cfg),
 				"judgements_within_1ns_of_timeout": h.boundary, "removals": h.cleanerRm}
 		}, cls...)
 	})
@@ -955,11 +1052,11 @@ func TestVerifC14CleanupNeverRemovesLive(t *testing.T) {
 // ---- scripted tests (no rapid): the confirm test of the open known finding (named
 // TestVerifC14_..., outside the unit's run pattern) and a regression input of a fixed one ----
 
-func c14NewScripted(t *testing.T, ipver int) *c14H {
+func c14NewScripted(t *testing.T, ipver int, cfg map[string]string, want timeouts.Timeouts) *c14H {
 	native := c14StartNative(t, ipver)
 	h := &c14H{tb: t, rec: ev.New("C14", "confirm", "scripted"), ipver: ipver, native: native,
 		byKey: map[string]*c14Conn{}, dirty: map[string]bool{}, classes: map[string]bool{}}
-	h.to = timeouts.DefaultTimeouts()
+	h.to, h.cfg = want, cfg
 	h.clock = mocktime.New()
 	ctP, ccqP := conntrack.MapParams, conntrack.MapParamsCleanup
 	kfb, vfb := conntrack.KeyFromBytes, conntrack.ValueFromBytes
@@ -969,7 +1066,7 @@ func c14NewScripted(t *testing.T, ipver int) *c14H {
 	}
 	h.ct = c14NewMap(h, "ct", ctP)
 	h.ccq = c14NewMap(h, "ccq", ccqP)
-	lc := conntrack.NewLivenessScanner(h.to, false, conntrack.WithTimeShim(h.clock))
+	lc := conntrack.NewLivenessScanner(timeouts.GetTimeouts(cfg), false, conntrack.WithTimeShim(h.clock))
 	h.sc = conntrack.NewScanner(h.ct, kfb, vfb, nil, "Disabled", h.ccq, ipver, &c14Cleaner{h}, lc)
 	return h
 }
@@ -1004,7 +1101,7 @@ func (h *c14H) addConn(proto uint8, nat bool, established bool, idle time.Durati
 // TestVerifC14_ConfirmFwdEqualTS fails exactly when finding c14KnownFwdEqTS reproduces.
 func TestVerifC14_ConfirmFwdEqualTS(t *testing.T) {
 	ev.Quiet()
-	h := c14NewScripted(t, 4)
+	h := c14NewScripted(t, 4, nil, timeouts.DefaultTimeouts())
 	// established TCP through a service, last packet came through the forward key two hours ago
 	c := h.addConn(conntrack.ProtoTCP, true, true, 2*time.Hour, 0)
 	h.order = func(name string, keys []string) []string { // the scanner meets the forward entry first
@@ -1035,12 +1132,52 @@ func TestVerifC14_ConfirmFwdEqualTS(t *testing.T) {
 // timestamps and never cleaned.
 func TestVerifC14RegressV6RevOrphan(t *testing.T) {
 	ev.Quiet()
-	h := c14NewScripted(t, 6)
+	h := c14NewScripted(t, 6, nil, timeouts.DefaultTimeouts())
 	c := h.addConn(conntrack.ProtoUDP, true, false, 10*time.Minute, 0)
 	h.ct.del(c.fwdKey) // forward entry lost (LRU)
 	h.scan()
 	h.scan()
 	if h.present(c.key) {
 		t.Fatalf("C14 VIOLATION (liveness, regression of 4a9af25): IPv6 reverse-NAT entry idle 10m (UDP timeout %v) still present after two scans", h.to.UDPTimeout)
+	}
+}
+
+// TestVerifC14RegressLookupFaultKeepsLivePair: plain regression input for the fault class added
+// to the generator - the lookup of a live NAT pair's reverse entry fails transiently during
+// two sweeps; nothing of the pair may be removed.
+func TestVerifC14RegressLookupFaultKeepsLivePair(t *testing.T) {
+	ev.Quiet()
+	h := c14NewScripted(t, 4, nil, timeouts.DefaultTimeouts())
+	c := h.addConn(conntrack.ProtoTCP, true, true, time.Second, h.now()-int64(10*time.Minute))
+	h.fault = func(h *c14H, mapName, key string) error {
+		if mapName == "ct" && key == c.key {
+			return unix.EAGAIN
+		}
+		return nil
+	}
+	h.scan() // onRemoval reports any removal of the live pair
+	h.scan()
+	if !h.present(c.key) || !h.present(c.fwdKey) {
+		t.Fatalf("C14 VIOLATION: live NAT pair lost an entry after failed lookups: fwd present=%v rev present=%v", h.present(c.fwdKey), h.present(c.key))
+	}
+}
+
+// TestVerifC14RegressPartialTimeoutConfig: plain regression input for the configuration shapes
+// added to the generator - a list naming one timeout leaves the others at their defaults.
+func TestVerifC14RegressPartialTimeoutConfig(t *testing.T) {
+	ev.Quiet()
+	want := timeouts.DefaultTimeouts()
+	want.TCPEstablished = 2 * time.Hour
+	h := c14NewScripted(t, 4, map[string]string{"TCPEstablished": "2h"}, want)
+	udp := h.addConn(conntrack.ProtoUDP, false, false, 2*time.Second, 0)
+	icmp := h.addConn(conntrack.ProtoICMP, false, false, time.Second, 0)
+	old := h.addConn(conntrack.ProtoUDP, false, false, 61*time.Second, 0)
+	h.scan()
+	h.scan()
+	if !h.present(udp.key) || !h.present(icmp.key) {
+		t.Fatalf("C14 VIOLATION: recently used flows removed under a partial timeout configuration")
+	}
+	if h.present(old.key) {
+		t.Fatalf("C14 VIOLATION (liveness): UDP flow idle 61s (default UDP timeout %v) still present after two scans", want.UDPTimeout)
 	}
 }
